@@ -33,6 +33,15 @@ func c13Tile(c *ctx, t maptile.Tile) {
 		e["fromqk"] = t3(maptile.FromQuadkey(k, t.Z))
 		e["parent"] = t3(t.Parent())
 		e["children"] = tilesEnc(t.Children())
+		e["cvalid"] = 1 // the children (one zoom deeper: zoom 31 for a zoom-30 tile) and the parent are valid tiles themselves
+		for _, ch := range t.Children() {
+			if !ch.Valid() || ch.Parent() != t {
+				e["cvalid"] = 0
+			}
+		}
+		if t.Z > 0 && !t.Parent().Valid() {
+			e["cvalid"] = 0
+		}
 		e["siblings"] = tilesEnc(t.Siblings())
 		ranges := []interface{}{}
 		for _, z := range []int{0, int(t.Z) - 1, int(t.Z), int(t.Z) + 1, int(t.Z) + 3, 30} {
